@@ -18,8 +18,8 @@ import (
 const raInf = int64(1) << 53 // creators in v12 ("infinite")
 
 type raPL struct {
-	Named map[string]int64 // ban kick redact invite events_default state_default users_default (explicit only)
-	Users map[string]int64
+	Named  map[string]int64 // ban kick redact invite events_default state_default users_default (explicit only)
+	Users  map[string]int64
 	Events map[string]int64
 	Notif  map[string]int64
 }
@@ -104,24 +104,24 @@ type raTPI struct {
 }
 
 type raState struct {
-	Version      string
+	Version       string
 	CreatePresent bool
-	CreateOK     bool // create content parses (creator string / additional_creators list of strings ...)
-	CreateSender string
-	CreateRoom   string
-	CreateID     string
-	Federate     bool
-	Creators     []string // v12: sender + additional_creators
-	HasPL        bool
-	PLOK         bool
-	PL           *raPL
-	HasJoinRule  bool
-	JoinRule     string
-	JoinRuleOK   bool
-	Members      map[string]string // user -> membership ("" content unparseable => MembersOK false)
-	MembersOK    bool
-	TPI          map[string]raTPI
-	Rooms        map[string]bool
+	CreateOK      bool // create content parses (creator string / additional_creators list of strings ...)
+	CreateSender  string
+	CreateRoom    string
+	CreateID      string
+	Federate      bool
+	Creators      []string // v12: sender + additional_creators
+	HasPL         bool
+	PLOK          bool
+	PL            *raPL
+	HasJoinRule   bool
+	JoinRule      string
+	JoinRuleOK    bool
+	Members       map[string]string // user -> membership ("" content unparseable => MembersOK false)
+	MembersOK     bool
+	TPI           map[string]raTPI
+	Rooms         map[string]bool
 }
 
 func raDomain(id string) (string, bool) {
